@@ -187,6 +187,22 @@ def cython_unit(spec):
                                                     "evaluators": CY_EVALS}, program=spec.describe(), max_paths=5, fidelity=0)
 
 
+NAME_POOLS = [("i", "j", "k", "n", "m"), ("x", "y", "z", "l", "h"), ("e", "f", "g", "c", "d"), ("E", "N", "O", "Q", "S"),
+              ("beta", "gamma", "zeta", "alpha", "sigma"), ("r", "w", "u", "v", "o"), ("I", "J", "K", "L", "M"),
+              ("lam", "mu", "nu", "xi", "rho"), ("f1", "x_1", "y2", "a_b", "c3")]
+
+
+def names_spec(pool):
+    """identifiers are inputs too: the same 3-state model (two transitions + an explicit ODE term) written with
+    names that collide with common loop indices, sympy singletons/functions (E, N, S, I, beta, gamma, zeta) or
+    carry digits/underscores"""
+    Vv = expr.Var
+    s1, s2, s3, p1, p2 = pool
+    return expr.ModelSpec("names_" + "_".join(pool), [s1, s2, s3], [p1, p2],
+                          [expr.Ev(Vv(p1) * Vv(s1) * Vv(s2), [expr.Tr("T", s1, s2)]), expr.Ev(Vv(p2) * Vv(s2), [expr.Tr("T", s2, s3)])],
+                          odes=[(s3, -(Vv(p2) * Vv(s3) * Vv(s1)))])
+
+
 def sigma_structures(states, kinds=("T", "B", "D")):
     """every single transition over `states`: T (ordered pairs), B by destination, B by origin, D"""
     out = []
@@ -272,6 +288,7 @@ class C01(Check):
         us = [assembly_unit(s) for s in fam]
         for u, s in zip(us, fam):
             u.optional = s.name.startswith("gen")
+        us += [assembly_unit(names_spec(pool)) for pool in NAME_POOLS]
         cy = ["sir_mag"] if tier == "quick" else ["sir_mag", "saturating", "exponential", "periodic", "derived_nested", "ode_mixed", "sir_bd_multi"]
         us += [cython_unit(expr.by_name(nm)) for nm in cy]
         sig = sigma_specs(1) + (sigma_specs(2) if tier != "quick" else sigma_specs(2)[::7])
